@@ -333,7 +333,20 @@ def r3(ctx):
     ctx.ob(it.qual, "variants-left-of-read-skipped", len(pre) == 1, it.loc(), "variants before the read's start are skipped, never yielded" if pre else "the initial skip loop changed")
 
 
+def _deref(fnode, e, depth=0):
+    """Follow plain copies: a Name whose only definition is another expression stands for that expression."""
+    while isinstance(e, ast.Name) and depth < 5:
+        d = util.single_def(fnode, e.id)
+        if d is None:
+            break
+        e = d
+        depth += 1
+    return e
+
+
 def _slice_lin(sub):
+    if not (isinstance(sub, ast.Subscript) and isinstance(sub.slice, ast.Slice)):
+        return (None, None)
     sl = sub.slice
     return (linear(sl.lower) if sl.lower is not None else {}, linear(sl.upper) if sl.upper is not None else None)
 
@@ -347,22 +360,48 @@ def r4(ctx):
     ctx.ob(fi.qual, "cigar-split-at-the-yielded-point", ok, fi.loc(), "left/right CIGAR halves are split at (i, consumed)" if ok else "the CIGAR halves are not split_cigar_left/right(cigartuples, i, consumed)")
     # the two prefix calls of each branch
     calls = [n for n in walk_function(fi.node) if isinstance(n, ast.Assign) and isinstance(n.value, ast.Call) and u(n.value.func) == "ReadSetReader.cigar_prefix_length" and isinstance(n.targets[0], ast.Tuple)]
-    ctx.require(len(calls) == 4, "expected four cigar_prefix_length calls in realign (two per branch)")
+    ctx.require(len(calls) in (2, 4), "expected two cigar_prefix_length calls per alignment mode (or two shared ones) in realign")
+
+    def specialise(e, mode):
+        """Copy of e with `A if use_kmerald else B` (either polarity) resolved for the given mode."""
+        from sa.pathfx import _clone
+
+        class T(ast.NodeTransformer):
+            def visit_IfExp(self, node):
+                self.generic_visit(node)
+                at = atoms(node.test, True)
+                if at == {("use_kmerald", True)}:
+                    return node.body if mode else node.orelse
+                if at == {("use_kmerald", False)}:
+                    return node.orelse if mode else node.body
+                return node
+
+        return T().visit(_clone(e))
+
+    seen_modes = set()
     for n in calls:
         tg = [u(t) for t in n.targets[0].elts]
         side = "left" if tg[0].startswith("left") else "right"
-        kmer = ("use_kmerald", True) in guard_atoms(cfg, cfg.node_of(n))
-        pad = "int(kmerald_window)" if kmer else "overhang"
-        lf = linear(n.value.args[1])
-        if side == "left":
-            ok = tg == ["left_ref_bases", "left_query_bases"] and u(n.value.args[0]) == "left_cigar_iterator" and lf == {pad: 1}
-            msg = "left flank asks for %s reference bases" % pad
-        else:
-            ok = tg == ["right_ref_bases", "right_query_bases"] and u(n.value.args[0]) == "right_cigar_iterator" and lf == {pad: 1, "len(variant.reference_allele)": 1}
-            msg = "right flank asks for len(REF) + %s reference bases" % pad
-        ctx.ob(fi.qual, "prefix-call:%s:%s" % ("kmerald" if kmer else "edit", side), ok, fi.loc(n), msg if ok else "%s prefix call is %s" % (side, u(n)))
+        ga = guard_atoms(cfg, cfg.node_of(n))
+        modes = [True] if ("use_kmerald", True) in ga else ([False] if ("use_kmerald", False) in ga else [True, False])
+        arg = util.resolve_locals(fi.node, n.value.args[1]) if len(n.value.args) > 1 else None
+        for mode in modes:
+            seen_modes.add((side, mode))
+            pad = "int(kmerald_window)" if mode else "overhang"
+            lf = linear(specialise(arg, mode)) if arg is not None else None
+            if side == "left":
+                ok = tg == ["left_ref_bases", "left_query_bases"] and u(n.value.args[0]) == "left_cigar_iterator" and lf == {pad: 1}
+                msg = "left flank asks for %s reference bases" % pad
+            else:
+                ok = tg == ["right_ref_bases", "right_query_bases"] and u(n.value.args[0]) == "right_cigar_iterator" and lf == {pad: 1, "len(variant.reference_allele)": 1}
+                msg = "right flank asks for len(REF) + %s reference bases" % pad
+            ctx.ob(fi.qual, "prefix-call:%s:%s" % ("kmerald" if mode else "edit", side), ok, fi.loc(n), msg if ok else "%s prefix call is %s" % (side, u(n)))
+    okm = seen_modes == {("left", True), ("left", False), ("right", True), ("right", False)}
+    if not okm:
+        ctx.ob(fi.qual, "prefix-call:coverage", False, fi.loc(), "flank lengths are not computed for both sides in both alignment modes: %s" % sorted(seen_modes))
     # edit-distance branch windows
-    qd = [(s, v) for s, v in util.assignments_to(fi.node, "query") if isinstance(v, ast.Subscript) and isinstance(v.slice, ast.Slice)]
+    qd = [(s, _deref(fi.node, v)) for s, v in util.assignments_to(fi.node, "query") if isinstance(v, ast.AST)]
+    qd = [(s, v) for s, v in qd if isinstance(v, ast.Subscript) and isinstance(v.slice, ast.Slice)]
     ok = len(qd) == 1 and u(qd[0][1].value) == "bam_read.query_sequence" and _slice_lin(qd[0][1]) == ({"query_pos": 1, "left_query_bases": -1}, {"query_pos": 1, "right_query_bases": 1})
     ctx.ob(fi.qual, "query-window", ok, fi.loc(qd[0][0]) if qd else fi.loc(), "query window = query_sequence[query_pos - left_query_bases : query_pos + right_query_bases]" if ok else "query window is cut differently")
     posd = util.single_def(fi.node, "pos")
@@ -386,8 +425,8 @@ def r4(ctx):
         ok = len(rest) == 1 and rest[0][0] == "each" and rest[0][3] == "variant.get_alt_allele_list()" and u(util.resolve_locals(fi.node, rest[0][1], keep=("left_pad", "right_pad"))) == "left_pad + %s + right_pad" % rest[0][2]
         ctx.ob(fi.qual, "every-alt-gets-the-same-pads", ok, fi.loc(), "every ALT is left_pad + alt + right_pad, in ALT order (index = allele number)" if ok else "ALT alleles are not padded as left_pad + alt + right_pad in ALT order: %s" % [(k[0], u(k[1])[:50]) for k in rest])
     # kmerald branch: ref_temp / alt_temp / query_temp
-    rt = util.single_def(fi.node, "ref_temp")
-    qt = util.single_def(fi.node, "query_temp")
+    rt = _deref(fi.node, util.single_def(fi.node, "ref_temp"))
+    qt = _deref(fi.node, util.single_def(fi.node, "query_temp"))
     ok = rt is not None and _slice_lin(rt) == ({"variant.position": 1, "left_ref_bases": -1}, {"variant.position": 1, "right_ref_bases": 1}) and qt is not None and _slice_lin(qt) == ({"query_pos": 1, "left_query_bases": -1}, {"query_pos": 1, "right_query_bases": 1})
     at = util.single_def(fi.node, "alt_temp")
     oka = at is not None and isinstance(at, ast.BinOp)
@@ -489,23 +528,35 @@ def r6(ctx):
     """No-reference handlers: allele base k is compared with query base query_start + k (same progress term)."""
     for name in ("_detect_alleles_match", "_detect_alleles_insertion"):
         fi = ctx.func(VP + "." + name)
-        vb = [n for n in walk_function(fi.node) if isinstance(n, ast.Assign) and u(n.targets[0]) == "vbase"]
-        qb = [n for n in walk_function(fi.node) if isinstance(n, ast.Assign) and u(n.targets[0]) == "qbase"]
-        ok = len(vb) == 1 and len(qb) == 1 and isinstance(vb[0].value, ast.Subscript) and isinstance(qb[0].value, ast.Subscript)
-        detail = "vbase/qbase assignments not found"
-        if ok:
-            vi = linear(vb[0].value.slice)
-            qi_expr = qb[0].value.slice
-            if isinstance(qi_expr, ast.Name):
-                # query_pos = query_start + a.matched + a.inserted, assigned per allele
-                defs = [v for s_, v in util.assignments_to(fi.node, qi_expr.id) if isinstance(v, ast.AST)]
-                qi = linear(defs[-1]) if defs else None
-            else:
-                qi = linear(qi_expr)
+        # the comparison of a read base with an allele base, with all single-binding locals resolved
+        # (qbase / vbase temporaries, an alias of bam_read.query_sequence, an `offset` local, ... or none of them)
+        cands = []
+        for c_ in [x for x in walk_function(fi.node) if isinstance(x, ast.Compare) and len(x.ops) == 1 and isinstance(x.ops[0], (ast.Eq, ast.NotEq))]:
+            r_ = util.resolve_locals(fi.node, c_, keep=("allele_seq",))
+            sides = [r_.left, r_.comparators[0]]
+            q_ = [x for x in sides if isinstance(x, ast.Subscript) and u(x.value) == "bam_read.query_sequence"]
+            v_ = [x for x in sides if isinstance(x, ast.Subscript) and u(x.value) == "allele_seq"]
+            if len(q_) == 1 and len(v_) == 1:
+                cands.append((c_, q_[0], v_[0]))
+        if len(cands) != 1:
+            ctx.ob(fi.qual, "allele-and-query-advance-in-lock-step", None if not cands else False, fi.loc(), "found %d comparisons of a read base with an allele base (expected one)" % len(cands))
+        else:
+            c_, q_, v_ = cands[0]
+            vi, qi = linear(v_.slice), linear(q_.slice)
+            if qi is not None:
+                # a running query index local (query_pos = query_start + a.matched + a.inserted, re-assigned per allele) is expanded
+                for nm in [k for k in list(qi) if k.isidentifier() and k != "query_start"]:
+                    defs = [v for s_, v in util.assignments_to(fi.node, nm) if isinstance(v, ast.AST)]
+                    sub = linear(defs[-1]) if defs else None
+                    if sub is not None:
+                        coef = qi.pop(nm)
+                        for k2, v2 in sub.items():
+                            qi[k2] = qi.get(k2, 0) + coef * v2
+                qi = {k: v for k, v in qi.items() if v}
             progress = {"a.matched": 1, "a.inserted": 1}
-            ok = vi == progress and qi is not None and {k: v for k, v in qi.items() if k != "query_start"} == progress and qi.get("query_start") == 1 and u(vb[0].value.value) == "allele_seq" and u(qb[0].value.value) == "bam_read.query_sequence"
+            ok = vi == progress and qi is not None and {k: v for k, v in qi.items() if k != "query_start"} == progress and qi.get("query_start") == 1
             detail = "allele index %s, query index %s" % (vi, qi)
-        ctx.ob(fi.qual, "allele-and-query-advance-in-lock-step", ok, fi.loc(vb[0]) if vb else fi.loc(), "allele base [matched + inserted] is compared with query base [query_start + matched + inserted]" if ok else "allele and query are not indexed by the same progress (%s): a read carrying the allele is compared against the wrong allele characters" % detail)
+            ctx.ob(fi.qual, "allele-and-query-advance-in-lock-step", ok, fi.loc(c_), "allele base [matched + inserted] is compared with query base [query_start + matched + inserted]" if ok else "allele and query are not indexed by the same progress (%s): a read carrying the allele is compared against the wrong allele characters" % detail)
         sq = util.single_def(fi.node, "allele_seq")
         ok = sq is not None and u(sq) == "variant.get_allele(i)"
         ctx.ob(fi.qual, "allele-sequence-of-allele-i", ok, fi.loc(), "allele_seq is the sequence of the allele whose progress object is updated" if ok else "allele_seq is %s" % (u(sq) if sq is not None else "?"))
@@ -516,21 +567,51 @@ def r7(ctx):
     for cls in ("BiallelicVcfVariant", "MultiallelicVcfVariant"):
         fi = ctx.func("whatshap.vcf.%s.normalized" % cls)
         loops = [n for n in walk_function(fi.node) if isinstance(n, ast.While)]
-        ok_n = len(loops) == 2
+        if len(loops) != 2:
+            ctx.ob(fi.qual, "strip-only-if-shared-by-all", None, fi.loc(), "normalized() does not consist of a suffix loop and a prefix loop (%d while loops)" % len(loops))
+            continue
         for i, w in enumerate(loops):
             conj = w.test.values if isinstance(w.test, ast.BoolOp) and isinstance(w.test.op, ast.And) else [w.test]
             txt = [u(c) for c in conj]
-            end = "-1" if i == 0 else "0"
-            if cls == "BiallelicVcfVariant":
-                ok = "ref[%s] == alt[%s]" % (end, end) in txt and any("len(ref)" in t for t in txt) and any("len(alt)" in t for t in txt)
-            else:
-                ok = "all((ref[%s] == alt[%s] for alt in alts))" % (end, end) in txt and "ref" in txt and "all(alts)" in txt
-            strip = "[:-1]" if i == 0 else "[1:]"
             body = " ".join(u(b) for b in w.body)
-            ok = ok and body.count(strip) >= 2
-            if i == 1:
-                ok = ok and any(isinstance(b, ast.AugAssign) and u(b.target) == "pos" and u(b.value) == "1" for b in w.body)
-            ctx.ob(fi.qual, "strip-%s-only-if-shared-by-all" % ("suffix" if i == 0 else "prefix"), ok and ok_n, fi.loc(w), "a %s base is removed only while REF and every ALT share it and none is empty%s" % ("trailing" if i == 0 else "leading", "; the position moves with the prefix" if i == 1 else "") if ok and ok_n else "normalisation loop `while %s` does not require that ALL alleles share the base: an allele can collapse onto REF" % u(w.test))
+            which = "suffix" if i == 0 else "prefix"
+            strip = "[:-1]" if i == 0 else "[1:]"
+            ok = None
+            if strip in body:
+                # form A: strip one character per round
+                end = "-1" if i == 0 else "0"
+                if cls == "BiallelicVcfVariant":
+                    ok = "ref[%s] == alt[%s]" % (end, end) in txt and any("len(ref)" in t for t in txt) and any("len(alt)" in t for t in txt)
+                else:
+                    ok = "all((ref[%s] == alt[%s] for alt in alts))" % (end, end) in txt and "ref" in txt and "all(alts)" in txt
+                ok = ok and body.count(strip) >= 2
+                if i == 1:
+                    ok = ok and any(isinstance(b, ast.AugAssign) and u(b.target) == "pos" and u(b.value) == "1" for b in w.body)
+            else:
+                # form B: count how many characters are shared; the counter advances while EVERY allele agrees with REF at that offset
+                incs = [b for b in w.body if isinstance(b, ast.AugAssign) and isinstance(b.op, ast.Add) and u(b.value) == "1" and isinstance(b.target, ast.Name)]
+                if len(w.body) == 1 and len(incs) == 1:
+                    cnt = incs[0].target.id
+                    alls = [c for c in conj if isinstance(c, ast.Call) and u(c.func) == "all" and len(c.args) == 1 and isinstance(c.args[0], (ast.GeneratorExp, ast.ListComp)) and len(c.args[0].generators) == 1 and not c.args[0].generators[0].ifs]
+                    anys = [c for c in ast.walk(w.test) if isinstance(c, ast.Call) and u(c.func) == "any"]
+                    bound = [c for c in conj if isinstance(c, ast.Compare) and len(c.ops) == 1 and isinstance(c.ops[0], ast.Lt) and u(c.left) == cnt]
+                    if len(alls) == 1 and not anys:
+                        g = alls[0].args[0].generators[0]
+                        e = alls[0].args[0].elt
+                        av = u(g.target)
+                        ok = isinstance(e, ast.Compare) and len(e.ops) == 1 and isinstance(e.ops[0], ast.Eq) and isinstance(e.left, ast.Subscript) and isinstance(e.comparators[0], ast.Subscript)
+                        if ok:
+                            l_, r_ = e.left, e.comparators[0]
+                            a_side, r_side = (l_, r_) if u(l_.value) == av else (r_, l_)
+                            ok = u(a_side.value) == av and u(r_side.value) == "ref" and u(a_side.slice) == u(r_side.slice) and cnt in u(a_side.slice) and len(bound) == 1
+                            # the iterated collection is the ALT allele(s)
+                            ok = ok and u(g.iter) in ("alts", "(alt,)", "[alt]", "self.alternative_alleles", "(self.alternative_allele,)")
+                    elif anys:
+                        ok = False
+            if ok is None:
+                ctx.ob(fi.qual, "strip-%s-only-if-shared-by-all" % which, None, fi.loc(w), "normalisation loop `while %s` is neither a strip-one-character loop nor a shared-length counter" % u(w.test)[:100])
+            else:
+                ctx.ob(fi.qual, "strip-%s-only-if-shared-by-all" % which, ok, fi.loc(w), "a %s base is removed only while REF and every ALT share it and none is empty%s" % ("trailing" if i == 0 else "leading", "; the position moves with the prefix" if i == 1 else "") if ok else "normalisation loop `while %s` does not require that ALL alleles share the base: an allele can collapse onto REF" % u(w.test)[:160])
 
 
 def r8(ctx):
